@@ -83,7 +83,20 @@ fn get_str(t: &str) -> Option<String> {
 pub fn eid(args: &[&str]) -> String {
     match args {
         [t] => match get_str(t) {
-            Some(s) => show_result(EndpointID::try_from(s.as_str())),
+            Some(s) => {
+                // the two textual entry points (TryFrom<&str>, TryFrom<String>) are one parser: same verdict, same endpoint ID
+                let a = EndpointID::try_from(s.as_str());
+                let b = EndpointID::try_from(s.clone());
+                let agree = match (&a, &b) {
+                    (Ok(x), Ok(y)) => x == y,
+                    (Err(_), Err(_)) => true,
+                    _ => false,
+                };
+                if !agree {
+                    return format!("UNSTABLE TryFrom<&str> gives {} but TryFrom<String> gives {}", show_result(a), show_result(b));
+                }
+                show_result(a)
+            }
             None => "BADCASE".into(),
         },
         _ => "BADCASE".into(),
